@@ -64,8 +64,8 @@ BUDGET = {
     "C02": (500, 100000, 1500),
     "C03": (500, 100000, 1500),
     "C05": (400, 80000, 1500),
-    "C04": (40, 2000, 1500),
-    "C11": (240, 3000, 1500),
+    "C04": (80, 2000, 1500),
+    "C11": (600, 3000, 1500),
     "C10": (250, 30000, 1500),
     "C06": (96, 20000, 1500),
     "C07": (96, 20000, 1500),
